@@ -23,9 +23,11 @@ func c13Rune(label string) rune {
 	if vrt.Thorough() {
 		vrt.Assume(vrt.And(r >= 0, r <= 0x10FFFF))
 		vrt.Assume(vrt.Or(r < 0xD800, r > 0xDFFF))
-	} else {
+	} else if k := vrt.Choice(label+".rune-class", 7); k == 0 {
 		vrt.Assume(vrt.And(r >= 0, r < 0x80))
-		vrt.Bound("symbolic-rune-below-0x80-in-quick", 0x80)
+		vrt.Bound("symbolic-rune-below-0x80-in-quick-plus-6-boundary-code-points", 0x80)
+	} else {
+		r = []rune{0xE9, 0x2028, 0x2029, 0xFFFD, 0x10000, 0x10FFFF}[k-1]
 	}
 	return r
 }
